@@ -1,9 +1,9 @@
 #!/usr/bin/env python3
 """run seeded changes against their property's check in isolated copies (tools/mutiso: scratch copy of /repo + scratch copy of /verif), several at a time;
-records the outcome in each meta.json.   usage: mutall2.py [dir ...]   (default: seeded/C??, seeded/round2/C??, seeded/extra/*)"""
+records the outcome in each meta.json.   usage: mutall2.py [dir ...]   (default: seeded/C??, seeded/round{2,3,4}/C??, seeded/extra/*)"""
 import sys, os, subprocess, json, re, glob, concurrent.futures
 V = "/verif"
-dirs = sys.argv[1:] or sorted(glob.glob(V + "/seeded/C??")) + sorted(glob.glob(V + "/seeded/round2/C??")) + sorted(glob.glob(V + "/seeded/extra/*"))
+dirs = sys.argv[1:] or sorted(glob.glob(V + "/seeded/C??")) + sorted(glob.glob(V + "/seeded/round2/C??")) + sorted(glob.glob(V + "/seeded/round3/C??")) + sorted(glob.glob(V + "/seeded/round4/C??")) + sorted(glob.glob(V + "/seeded/extra/*"))
 def one(d):
     m = json.load(open(d + "/meta.json")); pid = m["property"]
     p = subprocess.run([V + "/tools/mutiso", d + "/patch.diff", pid], capture_output=True, timeout=6000)
